@@ -115,6 +115,7 @@ class Sim:
                     rot = op['b'] % len(cand)
                     new = (cand[rot:] + cand[:rot])[:max(nsrc, 1)]
                     if sorted(new + gen_h) != sorted(e['hidden']):
+                        self.recent_hidden = [x for x in new if x not in e['hidden']] or new
                         e['hidden'] = new + gen_h
                         src_in = [i for i in e['exp'] + e['imp'] if i in srcs][0]
                         self.write(src_in, self.new_content(src_in, op.get('c', 5)))
@@ -132,6 +133,7 @@ class Sim:
                     new = cand[op['b'] % len(cand)]
                     self.write(new, self.files[old]['c'])
                     e['hidden'] = [new if h == old else h for h in e['hidden']]
+                    self.recent_hidden = [new]
                     src_in = [i for i in e['exp'] + e['imp'] if i in srcs][0]
                     self.now += 1
                     self.files[src_in]['m'] = self.now
@@ -188,6 +190,11 @@ class Sim:
                     self.now += 1
                     self.files[cand[0]]['m'] = self.now
                     self.labels.add('restat_noop_directed')
+        elif k == 'edit_recent_hidden':
+            if getattr(self, 'recent_hidden', None):
+                s = self.recent_hidden[0]
+                self.write(s, self.new_content(s, 5))
+                self.labels.add('edit_recent_hidden')
         elif k == 'edit_hidden':
             hs = [h for e in cmds for h in e.get('hidden', []) if h in srcs]
             if hs:
@@ -636,10 +643,27 @@ class Sim:
                 return True
         return False
 
+    def expand(self, ops):
+        for op in ops:
+            k = op['op']
+            if not k.startswith('m_'):
+                yield op
+                continue
+            self.labels.add(k)
+            b_all = dict(op='build', sel=2, j=op['j'], k=1, sched=op['sched'])
+            if k == 'm_swap_then_edit':
+                seq = [dict(op='swap_hidden_same_content', a=op['a'], b=op['b']), b_all, dict(op='edit_recent_hidden'), b_all]
+            elif k == 'm_rehide_then_edit':
+                seq = [dict(op='rehide', a=op['a'], b=op['b'], c=op['c']), b_all, dict(op='edit_recent_hidden'), b_all]
+            else:  # a failing build followed by a build in which the cause is gone
+                seq = [dict(op='edit', a=op['a'], c=op['c']), dict(b_all, faults=[(op['b'], 1 + op['c'], op['c'] % 2 == 0)]), b_all]
+            for x in seq:
+                yield x
+
     def run(self, ops):
         if not self.establish():
             return self.findings
-        for op in ops:
+        for op in self.expand(ops):
             if self.stop:
                 break
             if op['op'] == 'build':
